@@ -77,7 +77,10 @@ let () =
           let e = energy fops pi cf s in
           let vs = var_values fops pi cf s in
           let fs = forces fops pi cf s in
-          Printf.printf "E %s V %s F %s\n" (hex e) (String.concat " " (List.map hex vs))
+          (* S = the largest single contribution entering any atomic force (conditioning of the sums) *)
+          let sc = List.fold_left (fun m (_, ((a, b), c)) -> Float.max m (Float.max (Float.abs a) (Float.max (Float.abs b) (Float.abs c))))
+                     0.0 (all_contribs fops pi cf s) in
+          Printf.printf "E %s S %s V %s F %s\n" (hex e) (hex sc) (String.concat " " (List.map hex vs))
             (String.concat " " (List.map (fun ((a, b), c) -> Printf.sprintf "%s %s %s" (hex a) (hex b) (hex c)) fs))
         with Failure m -> Printf.printf "ERR %s\n" m | Invalid_argument m -> Printf.printf "ERR %s\n" m)
       end
